@@ -509,7 +509,11 @@ func runC20(r *core.Run) {
 		}
 		for _, mm := range mms {
 			q := fmt.Sprintf("maxmem=%d&augment=0", mm)
-			resp, err := (&http.Client{Timeout: 5 * time.Minute}).Get(srv.URL + "/debug/panicparse?" + q)
+			lt := 5 * time.Minute
+			if !r.Quick() {
+				lt = 45 * time.Minute
+			}
+			resp, err := (&http.Client{Timeout: lt}).Get(srv.URL + "/debug/panicparse?" + q)
 			r.Eval(1)
 			if err != nil {
 				if ne, ok := err.(interface{ Timeout() bool }); ok && ne.Timeout() {
@@ -523,8 +527,17 @@ func runC20(r *core.Run) {
 				r.Violation("handler-no-response", fmt.Sprintf("GET ?%s: %v", q, err), "req", reqSpec{Method: "GET", Query: q, Valid: true})
 				continue
 			}
-			body, _ := io.ReadAll(resp.Body)
+			body, rerr := io.ReadAll(resp.Body)
 			resp.Body.Close()
+			if ne, ok := rerr.(interface{ Timeout() bool }); ok && ne.Timeout() {
+				// the watchdog cut the answer, not the handler
+				if st := blockedHandlerStack(); st != "" {
+					r.Violation("handler-blocked", fmt.Sprintf("GET ?%s: the answer stopped after %d bytes and a handler goroutine is parked inside the library:\n%s", q, len(body), st), "req", reqSpec{Method: "GET", Query: q, Valid: true})
+				} else {
+					r.Inconclusive(fmt.Sprintf("GET ?%s: the request watchdog fired while the answer was still being written", q))
+				}
+				break
+			}
 			headers, _ := strconv.Atoi(resp.Header.Get("X-Verif-Headers"))
 			sum, _ := bucketSizes(body)
 			if resp.StatusCode != 200 || sum != headers || headers < n {
